@@ -14,9 +14,10 @@ def op(o, a=0):
     return {"o": o, "a": a, "v": 0}
 
 
-def term(k, s=None, catch=False, ret=0):
-    """ret (only with k == "return"): return the task object of spawned task `ret` itself instead of a value"""
-    return {"k": k, "s": s if s is not None else S("N"), "catch": bool(catch), "ret": ret}
+def term(k, s=None, catch=False, ret=0, reuse=0):
+    """ret (only with k == "return"): return the task object of spawned task `ret` itself instead of a value;
+    reuse (only with k == "yield"): yield again the very object that was yielded at segment `reuse`"""
+    return {"k": k, "s": s if s is not None else S("N"), "catch": bool(catch), "ret": ret, "reuse": reuse}
 
 
 def seg(ops, t):
@@ -45,7 +46,7 @@ BASE = dict(ntasks=(1, 6), nseg=(1, 3), nleaf=(0, 3), nkinds=(1, 2), depth=1,
             p_raise=0.0, p_errleaf=0.0, p_lazyfail=0.0, p_bad=0.0, p_catch=0.0,
             p_sync=0.0, p_spawn=0.0, ctx_types=(), p_ctx=0.0, nvars=0, p_read=0.0, faulty=(),
             ncalls=1, convs=("call", "value"), p_result=0.3, containers=("Tup", "Lst", "Dct"),
-            p_dedup=0.0, p_dirty=0.0, ndfn=(1, 2), nkeys=2, p_ival=0.0, p_raiseb=0.0, p_set=0.0)
+            p_dedup=0.0, p_dirty=0.0, ndfn=(1, 2), nkeys=2, p_ival=0.0, p_raiseb=0.0, p_set=0.0, p_rep=0.0, p_reuse=0.0)
 
 PROFILES = {
     "plain": dict(BASE),
@@ -96,6 +97,8 @@ PROFILES = {
     "overridedag": dict(BASE, ntasks=(3, 8), ctx_types=("override", "attr"), p_ctx=0.5, nvars=2, p_read=0.6, p_share=0.35, p_reyield=0.1,
                         nkinds=(1, 2)),
     "overrideset": dict(BASE, ctx_types=("override", "attr"), p_ctx=0.5, nvars=2, p_read=0.5, p_set=0.5, p_share=0.1),
+    "again": dict(BASE, ntasks=(2, 7), nseg=(2, 4), nleaf=(1, 4), p_rep=0.35, p_reuse=0.35, p_lazy=0.15, p_lazyfail=0.05, p_share=0.1, p_reyield=0.2,
+                  flush_modes=("ok", "ok", "itemerr"), p_catch=0.4, p_errleaf=0.05),
     "everything": dict(BASE, ntasks=(2, 8), nkinds=(1, 3), bases=(0, 1), p_share=0.1, p_reyield=0.05,
                        flush_modes=("ok", "ok", "itemerr", "skip", "raise"), p_raise=0.08, p_errleaf=0.04, p_bad=0.03,
                        p_catch=0.35, p_sync=0.15, ctx_types=("async", "override"), p_ctx=0.35, nvars=1, p_read=0.3),
@@ -283,7 +286,14 @@ class Gen(object):
                 else:
                     segs.append(seg(ops, term("return")))
             else:
+                prev = [j + 1 for j, sg in enumerate(segs) if sg["term"]["k"] == "yield" and not sg["term"]["reuse"]
+                        and sg["term"]["s"]["g"] in ("Tup", "Lst", "Dct")]
+                if p["p_reuse"] and prev and r.random() < p["p_reuse"]:
+                    segs.append(seg(ops, term("yield", None, r.random() < p["p_catch"], reuse=r.choice(prev))))
+                    continue
                 s = self.struct(t, yielded, p["depth"])
+                if p["p_rep"]:
+                    _add_reps(s, r, p["p_rep"])
                 yielded += [x["n"] for x in _leaves(s) if x["g"] == "T"]
                 segs.append(seg(ops, term("yield", s, r.random() < p["p_catch"])))
         return {"segs": segs}
@@ -319,6 +329,15 @@ def _leaves(s):
             out += _leaves(x)
         return out
     return [s]
+
+
+def _add_reps(s, r, prob):
+    """turn some leaves into a second occurrence of the very same object as an earlier future leaf"""
+    leaves = _leaves(s)
+    for j, lf in enumerate(leaves):
+        earlier = [i + 1 for i in range(j) if leaves[i]["g"] in ("T", "I", "L", "LF", "C", "E")]
+        if earlier and lf["g"] in ("I", "L", "C", "N") and r.random() < prob:
+            lf["g"], lf["n"] = "Rep", r.choice(earlier)
 
 
 def sample(profile, seed, n):
